@@ -207,6 +207,8 @@ CheckRead(e, k) ==
      ELSE LET M == Run(cfg, rd.table, rd.in1, rd.in2)
               ob == rd.obs
           IN /\ PrintBlame(e, k)
+             \* all modifiers conform locally, yet the read ends up somewhere else than the filter model says
+             /\ ((ob.chain # <<>> /\ Blame(e, k) = {} /\ ob.dest # M.dest) => PrintT(<<"BLAME", e.id, k, "filter">>))
              /\ RepK(e.id, "Stages.DocumentedOrder", k, OrderOK(cfg, ob.chain))
              /\ RepK(e.id, "Dest", k, ob.dest = M.dest)
              /\ RepK(e.id, "Fate", k, ob.dest # "none" \/ ~CountsAsWritten(cfg, M.fate))
